@@ -54,7 +54,7 @@ GS_ALL = one(gs.rule_gs_modstate, gs.rule_gs_classattr, gs.rule_gs_defaults, gs.
 LK_ALL = both(lk.rule_lk_taint, lk.rule_lk_map, lk.rule_lk_anchor, lk.rule_lk_part, lk.rule_lk_cache) + one(lk.rule_rx_jsesc)
 RS_ALL = one(rs.rule_rs_close, rs.rule_rs_epipe, rs.rule_rs_decerr, rs.rule_rs_nullderef)
 FL_ALL = both(rs.rule_fl_flags, rs.rule_fl_fields, rs.rule_fl_none_complete, rs.rule_fl_collect)
-IF_ALL = one(ifc.rule_if_layer, ifc.rule_if_conf, ifc.rule_if_entry, ifc.rule_if_args, ifc.rule_if_joinopts, ifc.rule_if_df, ifc.rule_cl_stdout, ifc.rule_cl_exit, ifc.rule_cl_mode, ifc.rule_cl_presence, ifc.rule_cl_options, ifc.rule_if_eot) + both(ifc.rule_if_regfresh, hd.rule_hd_emit, ifc.rule_if_varmap)
+IF_ALL = one(ifc.rule_if_layer, ifc.rule_if_conf, ifc.rule_if_entry, ifc.rule_if_args, ifc.rule_if_joinopts, ifc.rule_if_df, ifc.rule_cl_stdout, ifc.rule_cl_exit, ifc.rule_cl_mode, ifc.rule_cl_presence, ifc.rule_cl_options, ifc.rule_if_eot, ifc.rule_cl_delim) + both(ifc.rule_if_regfresh, hd.rule_hd_emit, ifc.rule_if_varmap)
 
 
 def only(rules, port):
@@ -148,7 +148,7 @@ PROPS = {
         'not_decided': 'equality of results across back-ends (depends on pandas/sqlite value conversion).',
     },
     'C14': {
-        'rules': both(sk.rule_sk_err, sk.rule_sk_nr, conf.rule_pa_hdrcall, conf.rule_pa_excl, hd.rule_va_index, rd.rule_rd_bom, agfold.rule_ag_fold) + one(agfold.rule_ag_parse) + FL_ALL + one(rs.rule_rs_decerr, ifc.rule_cl_exit, ifc.rule_if_errclass) + js(rd.rule_rd_decode) + both(rd.rule_rd_comment),
+        'rules': both(sk.rule_sk_err, sk.rule_sk_nr, conf.rule_pa_hdrcall, conf.rule_pa_excl, hd.rule_va_index, rd.rule_rd_bom, agfold.rule_ag_fold) + one(agfold.rule_ag_parse) + FL_ALL + one(rs.rule_rs_decerr, ifc.rule_cl_exit, ifc.rule_if_errclass) + both(ifc.rule_if_finishpath) + js(rd.rule_rd_decode) + both(rd.rule_rd_comment),
         'thorough_rules': both(sk.rule_sk_eof, rd.rule_rd_bom, cs.rule_cs_accept, ag.rule_ag_const),
         'explanation': 'Decides error/warning structure: one try covers every user fragment in every generated program; handlers never fall through (first offending record ends the query); bad field -> runtime error with index+1 and NR, bad key with the key and NR, parsing errors re-raised unchanged, anything else -> runtime error with NR; text-detectable conflicts raise the parsing class before the header is handed over and nothing can raise after it; decode faults map to the IO class; each warning flag has one neutral initialisation, set-sites only under its condition and one guarding read in get_warnings; field-count warning records the first record per count and cites the two smallest. Non-numeric aggregate arguments raise at their record: parse_number never returns an untested value. Comment lines never reach the record counter; JS bulk decoding through a streaming decoder must be flushed in the same function. query() collects the warnings of iterator, join table and writer on every normal path (the writer\'s after finish); the next input record is fetched outside the per-record try.',
         'not_decided': '"iff the condition occurred" for conditions defined over string contents (e.g. exactness of the delimiter-count heuristic).',
@@ -178,7 +178,7 @@ PROPS = {
         'not_decided': 'header inference on arbitrary select lists (python ast vs JS text spans are different algorithms); behavioural equality of the two reader architectures.',
     },
     'C19': {
-        'rules': only(SK_ALL, 'js') + only(WR_ALL, 'js') + only(CONF_ALL, 'js') + only(AG_ALL, 'js') + only(JN_ALL, 'js') + only(HD_ALL, 'js') + js(ow.rule_ow_mut, ow.rule_ow_fresh, ow.rule_ow_selwrap, pa.rule_pa_subst, pa.rule_pa_litflow) + one(xp.rule_xp_verdicts, xp.rule_xp_roles) + only(LK_ALL, 'js'),
+        'rules': only(SK_ALL, 'js') + only(WR_ALL, 'js') + only(CONF_ALL, 'js') + only(AG_ALL, 'js') + only(JN_ALL, 'js') + only(HD_ALL, 'js') + js(ow.rule_ow_mut, ow.rule_ow_fresh, ow.rule_ow_selwrap, pa.rule_pa_subst, pa.rule_pa_litflow, ifc.rule_if_finishpath) + one(xp.rule_xp_verdicts, xp.rule_xp_roles) + only(LK_ALL, 'js'),
         'thorough_rules': only(PA_ALL, 'js') + only(VA_ALL, 'js') + one(xp.rule_rx_xp, xp.rule_xp_keywords),
         'explanation': 'Applies to rbql.js every rule that defines the reference semantics of C01-C05 and C07 (same rule = same semantics): all skeleton rules on the 20 composed JS programs, writer chain, configuration table, aggregates, joins, header rules, and the ownership analysis for the caller\'s arrays; plus cross-port agreement of parser outcomes and class sets.',
         'not_decided': 'meaning of user expressions in two languages.',
